@@ -216,6 +216,147 @@ Section EmitTop.
   Qed.
 End EmitTop.
 
+(* ---------------------------------------------------------------------------------------------- *)
+(* C09, "exactly once if its connection stayed connected and unblocked throughout": ARBITRARY bodies that leave the entry (i, k)
+   as it is ([keeps_conn]: whatever else they do - disconnect / block other connections of the same signal, emit other signals,
+   run passes - the entry under k still holds the same connection when they return): an emission that returns normally has
+   invoked k, and by emit_at_most_once not twice. *)
+Section Kept.
+  Variable R : world -> nat -> res.
+  Hypothesis HR : good R.
+  Variables (i : nat) (k : gidx) (c : conn).
+
+  Definition has_conn (w : world) : Prop := exists m, get_impl w i = Some m /\ g_get (i_conns m) k = Some c.
+  Definition keeps_conn : Prop := forall w sid, winv w -> has_conn w -> has_conn (fst (R w sid)).
+  Hypothesis HK : keeps_conn.
+
+  Lemma has_conn_same w w' : w_impls w' = w_impls w -> has_conn w -> has_conn w'.
+  Proof. intros E (m & Hm & Hc). exists m. unfold get_impl in *. rewrite E. auto. Qed.
+
+  Lemma has_conn_disconnect_other w k' : winv w -> k' <> k -> has_conn w -> has_conn (impl_disconnect w i k').
+  Proof.
+    intros Hw Hne (m & Hm & Hc). unfold impl_disconnect. rewrite Hm. pose proof (Hw _ _ Hm) as (Hwf & _).
+    assert (Hb : gidx_eqb k' k = false) by (apply gidx_eqb_neq; exact Hne).
+    destruct (g_get (i_conns m) k') as [c'|] eqn:Hc'.
+    - destruct (i_emitting m).
+      + eexists. split; [eapply get_put_same; exact Hm|]. cbn.
+        destruct (update_spec (i_conns m) k' (conn_set_tbd c') Hwf) as (_ & Hg & _). rewrite Hg, Hb. exact Hc.
+      + set (w1 := match c_kind c' with KDeferred e => if ev_alive w e then ev_dequeue w e {| h_impl := Some i; h_id := Some k' |} else w | _ => w end).
+        assert (E1 : get_impl w1 i = Some m).
+        { unfold w1. destruct (c_kind c'); try exact Hm. destruct (ev_alive w ev); [|exact Hm]. unfold ev_dequeue.
+          repeat match goal with |- context [match ?x with _ => _ end] => destruct x end; exact Hm. }
+        eexists. split; [eapply get_put_same; exact E1|]. cbn.
+        destruct (erase_spec (i_conns m) k' Hwf) as (_ & Hg & _). rewrite Hg, Hb. exact Hc.
+    - eexists. split; [eapply get_put_same; exact Hm|]. cbn.
+      destruct (erase_spec (i_conns m) k' Hwf) as (_ & Hg & _). rewrite Hg, Hb. exact Hc.
+  Qed.
+
+  (* firing another connection of the same signal leaves (i, k) as it is *)
+  Lemma fire_other_keeps w k' c' args : winv w -> k' <> k -> has_conn w -> has_conn (fst (fire R w i k' c' args)).
+  Proof.
+    intros Hw Hne Hc. unfold fire, invoke_slot. destruct (c_kind c').
+    - apply HK; [same_impls|exact Hc].
+    - apply HK; [same_impls|exact Hc].
+    - assert (H1 : winv (handle_disconnect w {| h_impl := Some i; h_id := Some k' |}) /\
+                   has_conn (handle_disconnect w {| h_impl := Some i; h_id := Some k' |})).
+      { split; [apply handle_disconnect_ok; exact Hw|]. unfold handle_disconnect.
+        destruct (checked_lock w {| h_impl := Some i; h_id := Some k' |}) as [[j k'']|] eqn:EL; [|exact Hc].
+        unfold checked_lock in EL. cbn [h_id h_impl] in EL.
+        destruct (lock w (Some i)) as [j'|] eqn:Elk; [|discriminate EL].
+        assert (j' = i).
+        { unfold lock in Elk. destruct (get_impl w i) as [mi|]; [|discriminate Elk]. destruct (i_alive mi); inversion Elk; reflexivity. }
+        subst j'. destruct (get_impl w i) as [mi|]; [|discriminate EL]. destruct (g_get (i_conns mi) k'); inversion EL; subst.
+        apply has_conn_disconnect_other; assumption. }
+      destruct H1 as [Hw1 Hc1]. apply HK; [same_impls|exact Hc1].
+    - destruct (ev_alive w ev); [|exact Hc]. cbn [fst ok]. eapply has_conn_same; [|exact Hc]. unfold ev_enqueue.
+      repeat match goal with |- context [match ?x with _ => _ end] => destruct x end; reflexivity.
+  Qed.
+
+  (* firing (i, k) itself logs its invocation *)
+  Lemma fire_logs w args : winv w -> emitting_in w i -> (forall e, c_kind c <> KDeferred e) ->
+    exists l, w_trace (fst (fire R w i k c args)) = l ++ w_trace w /\ In k (dkeys i l).
+  Proof.
+    intros Hw He Hnd. destruct (fire_once R HR w i k c args Hw He) as (l & Hl & _). unfold fire in *.
+    destruct (c_kind c) eqn:Ek.
+    - destruct (invoke_direct_once R HR w i k (c_label c) (adapt (c_arity c) (c_bound c) args) (c_script c) Hw He) as (l1 & Hl1 & Hk1).
+      exists l1. split; [exact Hl1|rewrite Hk1; left; reflexivity].
+    - set (w1 := set_handles w (bind_key (w_handles w) selfvar {| h_impl := Some i; h_id := Some k |})).
+      assert (Hw1 : winv w1) by (unfold w1; same_impls).
+      destruct (invoke_direct_once R HR w1 i k (c_label c) args (c_script c) Hw1 He) as (l1 & Hl1 & Hk1).
+      exists l1. split; [exact Hl1|rewrite Hk1; left; reflexivity].
+    - set (w1 := handle_disconnect w {| h_impl := Some i; h_id := Some k |}).
+      destruct (handle_disconnect_ok w {| h_impl := Some i; h_id := Some k |} Hw) as [Hw1 L1]. fold w1 in Hw1, L1.
+      pose proof (emitting_in_wle _ _ _ i L1 He) as He1.
+      destruct (wle_no_events _ _ _ i L1 I He) as (l0 & Hl0 & _).
+      destruct (invoke_direct_once R HR w1 i k (c_label c) args (c_script c) Hw1 He1) as (l1 & Hl1 & Hk1).
+      exists (l1 ++ l0). split; [rewrite Hl1, Hl0, app_assoc; reflexivity|]. rewrite dkeys_app, Hk1. left; reflexivity.
+    - exfalso. exact (Hnd ev eq_refl).
+  Qed.
+
+  Lemma walk_fires args : c_blocked c = false -> (forall e, c_kind c <> KDeferred e) ->
+    forall idxs w w', winv w -> emitting_in w i -> has_conn w -> In (gi_index k) idxs ->
+    walk R w i args idxs = (w', None) ->
+    exists l, w_trace w' = l ++ w_trace w /\ In k (dkeys i l).
+  Proof.
+    intros Hub Hnd. induction idxs as [|x r IH]; intros w w' Hw He Hc Hin H; [destruct Hin|].
+    cbn [walk] in H. pose proof Hc as (m & Hm & Hg). rewrite Hm in H. pose proof (Hw _ _ Hm) as (Hwf & _).
+    destruct (Nat.eq_dec x (gi_index k)) as [->|Hx].
+    - rewrite (get_indexAt _ _ _ Hwf Hg), Hg, Hub in H.
+      destruct (fire_logs w args Hw He Hnd) as (l1 & Hl1 & Hk1).
+      pose proof (fire_ok R HR w i k c args Hw) as [Hw1 _].
+      destruct (fire R w i k c args) as [w1 [e|]] eqn:Hf; [discriminate H|]. cbn [fst] in *.
+      pose proof (walk_ok R HR i args r w1 Hw1) as [_ L2]. rewrite H in L2. cbn [fst] in L2.
+      destruct (wle_trace _ _ _ _ _ L2) as (l2 & Hl2 & _).
+      exists (l2 ++ l1). split; [rewrite Hl2, Hl1, app_assoc; reflexivity|]. rewrite dkeys_app. apply in_or_app; right; exact Hk1.
+    - assert (Hin' : In (gi_index k) r) by (destruct Hin as [E|Hi]; [exfalso; exact (Hx E)|exact Hi]).
+      destruct (g_indexAt (i_conns m) x) as [k'|] eqn:Hix; [|exact (IH w w' Hw He Hc Hin' H)].
+      destruct (indexAt_get _ _ _ Hwf Hix) as (Hkx & _).
+      assert (Hne : k' <> k) by (intros ->; exact (Hx (eq_sym Hkx))).
+      destruct (g_get (i_conns m) k') as [c'|]; [|exact (IH w w' Hw He Hc Hin' H)].
+      destruct (c_blocked c'); [exact (IH w w' Hw He Hc Hin' H)|].
+      pose proof (fire_ok R HR w i k' c' args Hw) as [Hw1 L1].
+      pose proof (fire_other_keeps w k' c' args Hw Hne Hc) as Hc1.
+      destruct (fire R w i k' c' args) as [w1 [e|]] eqn:Hf; [discriminate H|]. cbn [fst] in *.
+      pose proof (emitting_in_wle _ _ _ i L1 He) as He1.
+      destruct (IH w1 w' Hw1 He1 Hc1 Hin' H) as (l2 & Hl2 & Hk2).
+      destruct (wle_trace _ _ _ _ _ L1) as (l1 & Hl1 & _).
+      exists (l2 ++ l1). split; [rewrite Hl2, Hl1, app_assoc; reflexivity|]. rewrite dkeys_app. apply in_or_app; left; exact Hk2.
+  Qed.
+
+  Theorem emit_exactly_once_if_kept w s args m w' :
+    winv w -> lookup (w_sigs w) s = Some (Some i) -> get_impl w i = Some m -> i_emitting m = false ->
+    g_get (i_conns m) k = Some c -> c_blocked c = false -> (forall e, c_kind c <> KDeferred e) ->
+    sig_emit R w s args = (w', None) ->
+    exists l, w_trace w' = l ++ w_trace w /\ In k (dkeys i l) /\ NoDup (dkeys i l).
+  Proof.
+    intros Hw Hs Hm Hem Hg Hub Hnd H.
+    destruct (emit_at_most_once R HR w s args i Hw Hs) as (l0 & Hl0 & Hn0). rewrite H in Hl0. cbn [fst] in Hl0.
+    unfold sig_emit in H. rewrite Hs, Hm, Hem in H.
+    set (m1 := impl_with_owner (impl_with_flags m true (i_dde m)) (i_owned m) true) in *.
+    set (w1 := put_impl w i m1) in *.
+    assert (Hw1 : winv w1) by (apply winv_put; [assumption|apply impl_ok_emit_start; eapply Hw; eassumption]).
+    assert (Hg1 : get_impl w1 i = Some m1) by (eapply get_put_same; eassumption).
+    assert (He1 : emitting_in w1 i) by (exists m1; split; [exact Hg1|reflexivity]).
+    assert (Hc1 : has_conn w1) by (exists m1; split; [exact Hg1|exact Hg]).
+    assert (Hin : In (gi_index k) (seq 0 (g_size (i_conns m)))).
+    { apply in_seq. split; [lia|]. cbn. unfold g_get in Hg. unfold g_size.
+      destruct (nth_error (g_slots (i_conns m)) (gi_index k)) eqn:En; [|discriminate Hg]. apply nth_error_Some. congruence. }
+    destruct (walk R w1 i args (seq 0 (g_size (i_conns m)))) as [w2 e] eqn:EW. inversion H; subst w' e.
+    destruct (walk_fires args Hub Hnd _ w1 w2 Hw1 He1 Hc1 Hin EW) as (l & Hl & Hk).
+    exists l0. split; [exact Hl0|]. split; [|exact Hn0].
+    rewrite trace_finish_emit, Hl in Hl0. change (w_trace w1) with (w_trace w) in Hl0.
+    apply app_inv_tail in Hl0. subst l0. exact Hk.
+  Qed.
+End Kept.
+
+(* the hypotheses of emit_exactly_once_if_kept are met by bodies that DO act on the emitting signal: every slot disconnects
+   another connection k2 of it *)
+Definition disc_other (i : nat) (k2 : gidx) : world -> nat -> res := fun w _ => ok (impl_disconnect w i k2).
+Lemma disc_other_good i k2 : good (disc_other i k2).
+Proof. intros w sid Hw. unfold disc_other; cbn [fst ok]. apply impl_disconnect_ok; exact Hw. Qed.
+Lemma disc_other_keeps i k2 k c : k2 <> k -> keeps_conn (disc_other i k2) i k c.
+Proof. intros Hne w sid Hw Hc. unfold disc_other; cbn [fst ok]. apply has_conn_disconnect_other; assumption. Qed.
+
 (* the closed interpreter satisfies the contract, so the theorems hold for it with every table of slot bodies *)
 Corollary script_emit_at_most_once tbl pass_fuel fuel w s args i :
   winv w -> lookup (w_sigs w) s = Some (Some i) ->
